@@ -332,5 +332,6 @@ def main(chk):
                        "the other keys by == in insertion order) and PanCore.")
     for i in (0, len(progs) // 2, len(progs) - 1):
         chk.sample({"program": progs[i], "expected": meta[i][2], "impl": res[i]["impl"].get("repr"), "model_verdict": res[i]["verdict"]})
+    chk.cov["rule"] += " Name pool includes names with several leading underscores and a trailing underscore."
     return pancore.conclude(chk, ok, broken, "Props/C09.v", res, viol, model_only, "C09",
                             "Core.Interp (EObj/EMap, Obj#keys.., Map#..) vs evaluator/eval_{obj,map,pair}.go, object/{obj,map}.go, props/{obj,map}_props.go")
